@@ -7,6 +7,8 @@
 (* `Tzdb.check` event must agree with the name list of the `Tzdb.names`     *)
 (* event. A disagreement prints a MISMATCH line with the class label        *)
 (* computed here from the table, and the trace goes on.                     *)
+(* `Tzdb.define` events introduce synthetic files (zones synth/<n>); their  *)
+(* tables arrive by `Tzdb.table` events like those of real files.           *)
 (***************************************************************************)
 EXTENDS TzifClasses, TraceBase
 
@@ -78,6 +80,14 @@ LoadTable ==
      ELSE disk' = Put(disk, E.args.zone, Missing)
   /\ last' = [op |-> "table"]
   /\ UNCHANGED <<cache, hist>>
+\* synthetic TZif data: the bytes written from the logged description become a file of the environment; what they say is
+\* taken from the following `Tzdb.table` event (the parser's reading), not from the description. The library's own parser
+\* may reject them (an error), nothing else
+Define ==
+  /\ E.op = "Tzdb.define"
+  /\ IF E.out.kind \in {"ok"} \cup ErrKinds THEN TRUE
+     ELSE Report(l, E.op, "define", "accepted or rejected with an error", E.out)
+  /\ last' = [op |-> "define"] /\ UNCHANGED <<disk, cache, hist>>
 QueryStep ==
   /\ IsQuery(E)
   /\ LET q == QOf(E)
@@ -98,7 +108,7 @@ Check ==
         ELSE Report(l, E.op, CheckCls(E.args.chars), exp, E.out)
   /\ last' = [op |-> "check"] /\ UNCHANGED <<disk, cache, hist>>
 
-TNext == l <= NEv /\ l' = l + 1 /\ (Reset \/ Fresh \/ LoadTable \/ QueryStep \/ Names \/ Check)
+TNext == l <= NEv /\ l' = l + 1 /\ (Reset \/ Fresh \/ Define \/ LoadTable \/ QueryStep \/ Names \/ Check)
 TSpec == TInit /\ [][TNext]_tvars
 
 \* evaluated at every step of the trace: the memo never differs from the files read
